@@ -151,6 +151,7 @@ func (h *Handler) handleRequest(host *packet.Host, p packet.DHCP4, options packe
 		if lease.State == StateFree || // no offer or lease on record for this client
 			!bytes.Equal(lease.Addr.MAC, p.CHAddr()) || // invalid hardware
 			(lease.State == StateDiscover && (!bytes.Equal(lease.XID, p.XId()) || lease.IPOffer != reqIP)) || // invalid discover request
+			(lease.State == StateDiscover && h.allocatedToOther(lease, lease.IPOffer)) || // offer was acknowledged to another client meanwhile
 			(lease.State == StateAllocated && lease.Addr.IP != reqIP) { // invalid request - iphone send duplicate select packets - let it pass
 			Logger.Msg("request NACK - select invalid parameters").ByteArray("xid", p.XId()).ByteArray("lxid", lease.XID).IP("leaseIP", lease.Addr.IP).Write()
 			return nakPacket(p, subnet.DHCPServer.AsSlice(), clientID)
@@ -259,6 +260,18 @@ func (h *Handler) handleRequest(host *packet.Host, p packet.DHCP4, options packe
 	h.session.DHCPv4Update(lease.Addr.MAC, lease.Addr.IP, nameEntry)
 
 	return ret
+}
+
+// allocatedToOther reports whether ip is the acknowledged address of a lease other than lease.
+// The same address can be on offer to several clients (offers are not reserved); only the first
+// client to request it may get it.
+func (h *Handler) allocatedToOther(lease *Lease, ip netip.Addr) bool {
+	for _, l := range h.table {
+		if l != lease && l.State == StateAllocated && l.Addr.IP == ip {
+			return true
+		}
+	}
+	return false
 }
 
 // nakPacket returns a NACK reply packet.
